@@ -21,7 +21,10 @@
    successful answer and finds the buffer full stays blocked on the send for ever once the
    collector is gone: nobody receives from respCh again.
    The `first` strategies run under context.WithTimeout, so [Timeout] eventually happens;
-   unblindProposal runs under the caller's context, which has no deadline ([has_timeout] = false).
+   unblindProposal runs under the caller's context, which has no deadline ([has_timeout] = false);
+   instead (now) its collector also waits on a channel that is closed when every provider has
+   given up without an answer ([f_detect] = true; action [GiveUp]).  On the tree before that
+   repair ([f_detect] = false) the collector waits for ever when every relay fails.
 
    A handoff to a collector that is already waiting is modelled as Send followed by Recv (the
    buffer has capacity >= 1 in every instance).
@@ -47,6 +50,7 @@ Record fstate := {
   f_recvd : N;            (* answers the collector has taken *)
   f_coll_done : bool;     (* the collector has returned *)
   f_has_timeout : bool;   (* the collector's context has a deadline *)
+  f_detect : bool;        (* the collector is told when every provider has failed *)
   f_succ : N              (* GHOST: provider calls that returned successfully so far *)
 }.
 
@@ -54,7 +58,8 @@ Inductive fact :=
 | Return (i : nat) (ok : bool)
 | Send (i : nat)
 | Recv
-| Timeout.
+| Timeout
+| GiveUp.      (* the collector learns that every provider has given up without an answer *)
 
 Fixpoint set_nth {A} (l : list A) (i : nat) (x : A) : list A :=
   match l, i with
@@ -65,7 +70,10 @@ Fixpoint set_nth {A} (l : list A) (i : nat) (x : A) : list A :=
 
 Definition with_snd (s : fstate) (l : list sstat) : fstate :=
   {| f_snd := l; f_cap := f_cap s; f_buf := f_buf s; f_k := f_k s; f_recvd := f_recvd s;
-     f_coll_done := f_coll_done s; f_has_timeout := f_has_timeout s; f_succ := f_succ s |}.
+     f_coll_done := f_coll_done s; f_has_timeout := f_has_timeout s; f_detect := f_detect s; f_succ := f_succ s |}.
+
+Definition count_stat (x : sstat) (l : list sstat) : N :=
+  N.of_nat (length (filter (sstat_eqb x) l)).
 
 Definition fstep (s : fstate) (a : fact) : option fstate :=
   match a with
@@ -74,7 +82,7 @@ Definition fstep (s : fstate) (a : fact) : option fstate :=
       | Some SCall =>
           Some {| f_snd := set_nth (f_snd s) i (if ok then SReady else SDone);
                   f_cap := f_cap s; f_buf := f_buf s; f_k := f_k s; f_recvd := f_recvd s;
-                  f_coll_done := f_coll_done s; f_has_timeout := f_has_timeout s;
+                  f_coll_done := f_coll_done s; f_has_timeout := f_has_timeout s; f_detect := f_detect s;
                   f_succ := if ok then f_succ s + 1 else f_succ s |}
       | _ => None
       end
@@ -84,7 +92,7 @@ Definition fstep (s : fstate) (a : fact) : option fstate :=
           if f_buf s <? f_cap s then
             Some {| f_snd := set_nth (f_snd s) i SDone;
                     f_cap := f_cap s; f_buf := f_buf s + 1; f_k := f_k s; f_recvd := f_recvd s;
-                    f_coll_done := f_coll_done s; f_has_timeout := f_has_timeout s; f_succ := f_succ s |}
+                    f_coll_done := f_coll_done s; f_has_timeout := f_has_timeout s; f_detect := f_detect s; f_succ := f_succ s |}
           else None
       | _ => None
       end
@@ -93,41 +101,46 @@ Definition fstep (s : fstate) (a : fact) : option fstate :=
         Some {| f_snd := f_snd s; f_cap := f_cap s; f_buf := f_buf s - 1; f_k := f_k s;
                 f_recvd := f_recvd s + 1;
                 f_coll_done := (f_k s <=? f_recvd s + 1);
-                f_has_timeout := f_has_timeout s; f_succ := f_succ s |}
+                f_has_timeout := f_has_timeout s; f_detect := f_detect s; f_succ := f_succ s |}
       else None
   | Timeout =>
       if negb (f_coll_done s) && f_has_timeout s then
         Some {| f_snd := f_snd s; f_cap := f_cap s; f_buf := f_buf s; f_k := f_k s; f_recvd := f_recvd s;
-                f_coll_done := true; f_has_timeout := f_has_timeout s; f_succ := f_succ s |}
+                f_coll_done := true; f_has_timeout := f_has_timeout s; f_detect := f_detect s; f_succ := f_succ s |}
+      else None
+  | GiveUp =>
+      (* allFailedCh is closed by the last of the n goroutines to end without an answer *)
+      if negb (f_coll_done s) && f_detect s && (count_stat SCall (f_snd s) =? 0) && (f_succ s =? 0) then
+        Some {| f_snd := f_snd s; f_cap := f_cap s; f_buf := f_buf s; f_k := f_k s; f_recvd := f_recvd s;
+                f_coll_done := true; f_has_timeout := f_has_timeout s; f_detect := f_detect s; f_succ := f_succ s |}
       else None
   end.
 
-Definition finit (n : nat) (cap k : N) (has_timeout : bool) : fstate :=
+Definition finit (n : nat) (cap k : N) (has_timeout detect : bool) : fstate :=
   {| f_snd := repeat SCall n; f_cap := cap; f_buf := 0; f_k := k; f_recvd := 0;
-     f_coll_done := (k =? 0); f_has_timeout := has_timeout; f_succ := 0 |}.
+     f_coll_done := (k =? 0); f_has_timeout := has_timeout; f_detect := detect; f_succ := 0 |}.
 
 Definition fexec (s : fstate) (a : fact) : fstate :=
   match fstep s a with Some s' => s' | None => s end.
 
 Definition frun (sch : list fact) (s : fstate) : fstate := fold_left fexec sch s.
 
-Definition count_stat (x : sstat) (l : list sstat) : N :=
-  N.of_nat (length (filter (sstat_eqb x) l)).
-
 (* goroutines that hold an answer and have not been able to send it *)
 Definition blocked (s : fstate) : N := count_stat SReady (f_snd s).
 Definition calling (s : fstate) : N := count_stat SCall (f_snd s).
 
 (* Nothing can move any more: every provider call has returned, no sender can send, the collector
-   cannot receive and (if it can time out) has returned. *)
+   cannot receive and (if it can time out, or be told that everybody failed) has returned. *)
 Definition final (s : fstate) : bool :=
   (calling s =? 0) &&
   ((blocked s =? 0) || (f_cap s <=? f_buf s)) &&
-  (f_coll_done s || (negb (f_has_timeout s) && (f_buf s =? 0))).
+  (f_coll_done s ||
+   (negb (f_has_timeout s) && (f_buf s =? 0) && negb (f_detect s && (f_succ s =? 0)))).
 
 (* the collector waits for ever: it has not returned, cannot time out, and no answer will come *)
 Definition collector_stuck (s : fstate) : bool :=
-  negb (f_coll_done s) && negb (f_has_timeout s) && (calling s =? 0) && (f_buf s =? 0) && (blocked s =? 0).
+  negb (f_coll_done s) && negb (f_has_timeout s) && negb (f_detect s) &&
+  (calling s =? 0) && (f_buf s =? 0) && (blocked s =? 0).
 
 (* The formula the goroutine counts are compared with. *)
 Definition leak_formula (succ cap recvd : N) : N := succ - cap - recvd.   (* truncated subtraction on N: max 0 *)
@@ -146,7 +159,7 @@ Fixpoint settle_sends (n : nat) (i : nat) (s : fstate) : fstate :=
   | S n' => settle_sends n' (S i) (fexec (fexec s (Send i)) Recv)
   end.
 
-Definition settle (s : fstate) : fstate := settle_sends (length (f_snd s)) 0 s.
+Definition settle (s : fstate) : fstate := fexec (settle_sends (length (f_snd s)) 0 s) GiveUp.
 
 Definition fev_apply (s : fstate) (e : fev) : fstate :=
   match e with
@@ -154,5 +167,5 @@ Definition fev_apply (s : fstate) (e : fev) : fstate :=
   | FTimeout => settle (fexec s Timeout)
   end.
 
-Definition scenario (n : nat) (cap k : N) (has_timeout : bool) (evs : list fev) : fstate :=
-  fold_left fev_apply evs (finit n cap k has_timeout).
+Definition scenario (n : nat) (cap k : N) (has_timeout detect : bool) (evs : list fev) : fstate :=
+  fold_left fev_apply evs (finit n cap k has_timeout detect).
